@@ -243,6 +243,50 @@ func runC04(c *Ctx) {
 		r.Check("C04.3", fmt.Sprintf("miss-appends-name:%d", i), !escaped, c.pos(e.From.Instrs[len(e.From.Instrs)-1]),
 			"from the miss edge every path appends the requested name to the miss list before the next iteration or a return")
 	}
+	// the list of missed names only ever grows by name appends: a slice of it used as the
+	// target of another append, or a store through an index, writes into the array the
+	// returned list shares (append(list[:k], x) replaces list[k])
+	nAlias := 0
+	ir.Instrs(fn, func(in ssa.Instruction) {
+		var base ssa.Value
+		var what string
+		switch x := in.(type) {
+		case *ssa.Slice:
+			if x.Referrers() == nil {
+				return
+			}
+			for _, ref := range *x.Referrers() {
+				if call, ok := ref.(*ssa.Call); ok && ir.BuiltinName(call) == "append" && call.Call.Args[0] == ssa.Value(x) {
+					base, what = x.X, "append to a slice of the miss list"
+				}
+			}
+		case *ssa.IndexAddr:
+			if x.Referrers() == nil {
+				return
+			}
+			for _, ref := range *x.Referrers() {
+				if st, ok := ref.(*ssa.Store); ok && st.Addr == ssa.Value(x) {
+					base, what = x.X, "store into an element of the miss list"
+				}
+			}
+		}
+		if base == nil {
+			return
+		}
+		if _, isCall := base.(*ssa.Call); !isCall {
+			if _, isPhi := base.(*ssa.Phi); !isPhi {
+				return
+			}
+		}
+		if ir.IsNilConst(base) || !s.isMissList(c, base, map[ssa.Value]bool{}) {
+			return
+		}
+		nAlias++
+		r.Violation("C04.3", "miss-list-rewritten", c.pos(in), what+": the list handed back with the error no longer holds exactly the unresolvable names in request order")
+	})
+	if nAlias == 0 {
+		r.OK("C04.3", "miss-list-rewritten", c.U.Pos(fn.Pos()), "the miss list is only ever extended by appending requested names; nothing writes into its elements")
+	}
 	// every looked-up name is classified: no path from the lookup to the next
 	// iteration (or a return) bypasses the miss/hit test of its result
 	for i, lk := range s.lookups {
